@@ -55,6 +55,8 @@ def fold_count(I: Interp, f: FuncInfo, e: ast.expr):
         from ..prov import Canon
 
         e = Canon(I, f, "").tree(e)
+    if isinstance(e, ast.NamedExpr):
+        return fold_count(I, f, e.value)  # `(n := len(self.fields)) - 1`: the walrus has the value of its expression
     if isinstance(e, ast.Constant) and isinstance(e.value, int):
         return e.value
     if isinstance(e, ast.BinOp) and isinstance(e.op, (ast.Sub, ast.Add)):
